@@ -74,3 +74,17 @@ Fixpoint mtrace (st : mstate) (sched : list nat) : list (list nat) :=
   | [] => []
   | t :: r => match mstep st t with None => [[]] | Some st' => m_enc st' :: mtrace st' r end
   end.
+
+(* ------------------------------------------------------------------ what the solver's constructor installs
+   (EvolvingAnsatzMinimumEigensolver.__init__): with mutually_exclusive_primitives and a ThreadPoolExecutor the raw
+   primitive is wrapped in a BatchingMutex wrapper, with a dask Client in a plain Mutex wrapper; the transpiling
+   wrapper always goes on top. *)
+Inductive executor_kind : Type := ThreadPool | DaskClient.
+Inductive prim : Type := Raw | MutexW (p : prim) | BatchingMutexW (p : prim) | TranspilingW (p : prim).
+Definition install (mutually_exclusive : bool) (ex : executor_kind) (p : prim) : prim :=
+  TranspilingW (if mutually_exclusive
+                then match ex with ThreadPool => BatchingMutexW p | DaskClient => MutexW p end
+                else p).
+(* some mutual-exclusion wrapper sits between the evaluators and the raw primitive *)
+Fixpoint guarded (p : prim) : bool :=
+  match p with Raw => false | MutexW _ | BatchingMutexW _ => true | TranspilingW q => guarded q end.
